@@ -18,8 +18,17 @@ import (
 func guardCheck(c *core.Ctx, clause, pkgRel string, spec an.GuardSpec, minMethods int) {
 	methods := an.MethodsOf(c.P.AllFunctions(), pkgRel, spec.TypeName)
 	sort.Slice(methods, func(i, j int) bool { return methods[i].Name() < methods[j].Name() })
-	c.Count("methods of "+spec.TypeName+" analysed for lock discipline", len(methods))
-	c.Min("methods of "+spec.TypeName+" analysed for lock discipline", minMethods)
+	// the vacuity floor counts the exported methods only: unexported helpers
+	// come and go with refactors (inlining, extraction) without changing behaviour
+	nExp := 0
+	for _, m := range methods {
+		if isExported(m.Name()) {
+			nExp++
+		}
+	}
+	c.Count("exported methods of "+spec.TypeName+" analysed for lock discipline", nExp)
+	c.Min("exported methods of "+spec.TypeName+" analysed for lock discipline", minMethods)
+	c.Count("methods of "+spec.TypeName+" analysed for lock discipline (all)", len(methods))
 	byName := map[string]*ssa.Function{}
 	for _, m := range methods {
 		byName[m.Name()] = m
@@ -123,7 +132,7 @@ func syncEffects(typeName string) func(ssa.Instruction) (string, bool) {
 				return "close", true
 			}
 		case *ssa.Defer:
-			id := an.CalleeID(x)
+			id := an.DeferredCalleeID(x)
 			if id == "sync.Mutex.Unlock" || id == "sync.RWMutex.Unlock" || id == "sync.RWMutex.RUnlock" {
 				return "defer-unlock", true
 			}
